@@ -376,6 +376,10 @@ pub enum DimMode {
     Absent,
     /// some well-ordered rectangle unrelated to the data
     Inaccurate,
+    /// a STALE tight box: from the first to the last non-empty cell in the order they are written (their positions
+    /// as the two corners) when that is a well-ordered rectangle — the box Excel wrote before a cell was moved out
+    /// of it or rows were re-ordered; falls back to `Accurate` otherwise (C01, seeded C01-m9)
+    FirstLast,
 }
 
 #[derive(Clone, Copy, Debug, PartialEq)]
@@ -485,6 +489,12 @@ pub struct Layout {
     /// row's EMPTY cells only: a cell without `s` has style 0, never the row's (§18.3.1.73). Private stream,
     /// `plain()` = 0. (C01, seeded C01-m6)
     pub pct_row_style: u8,
+    /// chance, cell `<xf>` by cell `<xf>`, that it carries an explicit `applyNumberFormat` (`0`, `false`, `1` or `true`)
+    /// and an `xfId` pointing at any of the cell-STYLE xfs (whose number format usually differs from its own). The
+    /// flag is a hint for editing applications: the cell is formatted by the `numFmtId` of its own `<xf>` whatever the
+    /// flag says (§18.8.45). The cell-style xfs then also get date / elapsed formats. Private stream, `plain()` = 0.
+    /// (C10, seeded C10-m12)
+    pub pct_xf_apply_flag: u8,
     /// row styles are drawn from `0..row_style_count`; 0 = the length of the book's `cellXfs` (set by `build`)
     pub row_style_count: u32,
     /// where `xl/workbook.xml` declares the relationships-namespace prefix (`rel_prefix`) that `<sheet>` uses.
@@ -499,6 +509,11 @@ pub struct Layout {
     /// relationship (theme) in front of / between the sheets', white space between the elements. Private stream,
     /// `plain()` = 0. (C01 container glue)
     pub pct_rels_noise: u8,
+    /// chance, row by row, of a `spans="first:last"` hint (§18.3.1.73: an optimisation only) with any content: the
+    /// true column span of the row, a stale one, one whose first column is > 1 although the row starts at A, several
+    /// spans, the last column of the grid. The position of a cell without `r` is "previous + 1" / column A whatever
+    /// the hint says. Private stream, `plain()` = 0. (C01, seeded C01-m11)
+    pub pct_spans: u8,
 }
 
 impl Layout {
@@ -531,14 +546,26 @@ impl Layout {
             pct_xf_omit_general: 0,
             pct_styles_noise: 0,
             pct_row_style: 0,
+            pct_xf_apply_flag: 0,
             row_style_count: 0,
             rel_decl: RelDecl::Workbook,
             shuffle_rows: false,
             pct_rels_noise: 0,
+            pct_spans: 0,
         }
     }
     /// every knob randomised (legal variations only)
     pub fn random(rng: &mut Rng) -> Layout {
+        let mut l = Layout::random_base(rng);
+        // later additions are drawn from a stream of their own so that earlier cases keep their other choices
+        let mut own2 = Rng(l.seed ^ 0x0D1A_5EED_F1A5_7001);
+        if own2.chance(1, 6) {
+            l.dimension = DimMode::FirstLast;
+        }
+        l.pct_spans = *own2.pick(&[0u8, 0, 50, 100]);
+        l
+    }
+    fn random_base(rng: &mut Rng) -> Layout {
         let pct = |rng: &mut Rng| *rng.pick(&[0u8, 0, 20, 50, 80, 100, 100]);
         let seed = rng.next();
         // the attribute knobs are derived from `seed`, not drawn from the caller's stream: every case generated
@@ -575,18 +602,21 @@ impl Layout {
             rel_decl: *own.pick(&[RelDecl::Workbook, RelDecl::Workbook, RelDecl::Sheets, RelDecl::Sheet, RelDecl::Split]),
             shuffle_rows: false,
             pct_rels_noise: *own.pick(&[0u8, 0, 50, 100]),
+            pct_spans: 0,
+            // (drawn last from `own`: the knobs above keep the values they had before this one existed)
+            pct_xf_apply_flag: *own.pick(&[0u8, 0, 50, 100]),
         }
     }
     /// short description for counters / failure signatures
     pub fn describe(&self) -> String {
         format!(
-            "pre={} rel={} case={:?} target={:?} zip={:?} dim={:?} rowref={} cellref={} lower={} swap={} dedupe={} rich={} emptysi={} tn={} selfclose={} ws={} noise={} blank={} attrshuffle={} attrextra={} tnstyled={} xfomit={} stylesnoise={} rowstyle={} reldecl={:?} relsnoise={}",
+            "pre={} rel={} case={:?} target={:?} zip={:?} dim={:?} rowref={} cellref={} lower={} swap={} dedupe={} rich={} emptysi={} tn={} selfclose={} ws={} noise={} blank={} attrshuffle={} attrextra={} tnstyled={} xfomit={} stylesnoise={} rowstyle={} reldecl={:?} relsnoise={} applyflag={} spans={}",
             if self.prefix.is_empty() { "-" } else { &self.prefix },
             self.rel_prefix, self.part_case, self.target, self.compression, self.dimension, self.pct_row_ref,
             self.pct_cell_ref, self.pct_lower_ref, self.pct_swap_string_store, self.pct_sst_dedupe, self.pct_rich,
             self.pct_empty_si, self.pct_t_n, self.pct_self_close, self.pct_whitespace, self.pct_noise, self.pct_write_blank,
             self.pct_attr_shuffle, self.pct_attr_extra, self.pct_t_n_styled, self.pct_xf_omit_general, self.pct_styles_noise,
-            self.pct_row_style, self.rel_decl, self.pct_rels_noise
+            self.pct_row_style, self.rel_decl, self.pct_rels_noise, self.pct_xf_apply_flag, self.pct_spans
         )
     }
     fn q(&self, n: &str) -> String {
@@ -709,6 +739,7 @@ pub fn render_sheet(sheet: &XlsxSheet, l: &Layout, rng: &mut Rng, sst: &mut Sst)
     let mut arng = attr_rng(l, &sheet.name);
     // row-style knob: its own stream
     let mut rsrng = attr_rng(l, &format!("{}#rowstyle", sheet.name));
+    let mut sprng = attr_rng(l, &format!("{}#spans", sheet.name));
     let (nk, nv) = l.ns_attr();
     let mut root_attrs = vec![(nk, nv)];
     root_attrs.push((format!("xmlns:{}", if l.rel_prefix.is_empty() { "r" } else { &l.rel_prefix }), NS_REL.to_string()));
@@ -723,11 +754,41 @@ pub fn render_sheet(sheet: &XlsxSheet, l: &Layout, rng: &mut Rng, sst: &mut Sst)
         .iter()
         .filter(|(_, c)| !(c.value == XVal::Empty && c.formula.is_none()) || roll(rng, l.pct_write_blank))
         .collect();
+    // the rows in the order they are written
+    let mut row_spans: Vec<(usize, usize)> = vec![];
+    {
+        let mut i = 0;
+        while i < written.len() {
+            let r = written[i].0 .0;
+            let mut j = i;
+            while j < written.len() && written[j].0 .0 == r {
+                j += 1;
+            }
+            row_spans.push((i, j));
+            i = j;
+        }
+    }
+    if l.shuffle_rows {
+        let mut own = Rng::new(l.seed ^ 0x5a17_0f0f ^ sheet.name.len() as u64);
+        own.shuffle(&mut row_spans);
+    }
     let dim: Option<Rect> = match sheet.dimension {
         Some(d) => Some(d),
         None => match l.dimension {
             DimMode::Absent => None,
             DimMode::Accurate => bbox(written.iter().map(|(p, _)| **p)),
+            DimMode::FirstLast => {
+                let order: Vec<(u32, u32)> = row_spans
+                    .iter()
+                    .flat_map(|(i, j)| written[*i..*j].iter())
+                    .filter(|(_, c)| c.value != XVal::Empty)
+                    .map(|(p, _)| **p)
+                    .collect();
+                match (order.first(), order.last()) {
+                    (Some(a), Some(b)) if a.0 <= b.0 && a.1 <= b.1 => Some((*a, *b)),
+                    _ => bbox(written.iter().map(|(p, _)| **p)),
+                }
+            }
             DimMode::Inaccurate => {
                 let r0 = *rng.pick(&[0u32, 0, 1, 5, 1000, 1_048_575]);
                 let c0 = *rng.pick(&[0u32, 0, 2, 30, 16_383]);
@@ -758,24 +819,6 @@ pub fn render_sheet(sheet: &XlsxSheet, l: &Layout, rng: &mut Rng, sst: &mut Sst)
         out.push(Ev::Other(sheet.extra_before_sheet_data.clone()));
     }
     out.push(start(&l.q("sheetData"), &[]));
-    // the rows in the order they are written
-    let mut row_spans: Vec<(usize, usize)> = vec![];
-    {
-        let mut i = 0;
-        while i < written.len() {
-            let r = written[i].0 .0;
-            let mut j = i;
-            while j < written.len() && written[j].0 .0 == r {
-                j += 1;
-            }
-            row_spans.push((i, j));
-            i = j;
-        }
-    }
-    if l.shuffle_rows {
-        let mut own = Rng::new(l.seed ^ 0x5a17_0f0f ^ sheet.name.len() as u64);
-        own.shuffle(&mut row_spans);
-    }
     // reader cursor
     let mut row_index: u32 = 0;
     for (i, j) in row_spans {
@@ -796,6 +839,22 @@ pub fn render_sheet(sheet: &XlsxSheet, l: &Layout, rng: &mut Rng, sst: &mut Sst)
             attrs.push(("ht".into(), "15".into()));
         }
         let mut attrs = arrange(l, &mut arng, attrs, &ROW_EXTRAS);
+        if roll(&mut sprng, l.pct_spans) {
+            attrs.retain(|(k, _)| k != "spans");
+            let c0 = written[i].0 .1 as u64 + 1;
+            let c1 = written[j - 1].0 .1 as u64 + 1;
+            let k = sprng.range(2, 9);
+            let v = match sprng.below(6) {
+                0 => format!("{c0}:{c1}"),
+                1 => format!("{}:{}", c0 + k, c1 + k),
+                2 => format!("{}:{}", k, k + sprng.below(6)),
+                3 => format!("1:{} {}:{}", k, k + 2, k + 4),
+                4 => "16384:16384".to_string(),
+                _ => format!("{}:{}", c0.saturating_sub(1).max(1), c1),
+            };
+            let at = sprng.below(attrs.len() as u64 + 1) as usize;
+            attrs.insert(at, ("spans".into(), v));
+        }
         if roll(&mut rsrng, l.pct_row_style) {
             // the row is formatted as a whole; its cells keep their own style (absent = 0)
             attrs.retain(|(k, _)| k != "customFormat" && k != "hidden");
@@ -1014,7 +1073,14 @@ pub fn render_styles(book: &XlsxBook, l: &Layout) -> Vec<Ev> {
     } else {
         vec![Some(0)]
     };
-    let ca = if noise { count_attr(&mut srng, style_xfs.len()) } else { vec![("count".into(), "1".into())] };
+    // apply-flag knob: its own stream; with it the cell-style table holds date / elapsed / plain formats to point at
+    let mut afrng = attr_rng(l, "xl/styles.xml#applyflag");
+    let style_xfs: Vec<Option<u32>> = if l.pct_xf_apply_flag > 0 && !noise {
+        vec![Some(0), Some(14), Some(46), Some(2)]
+    } else {
+        style_xfs
+    };
+    let ca = if noise { count_attr(&mut srng, style_xfs.len()) } else { vec![("count".into(), style_xfs.len().to_string())] };
     out.push(Ev::Start(l.q("cellStyleXfs"), ca));
     for id in &style_xfs {
         let attrs: Vec<(String, String)> = match id {
@@ -1034,7 +1100,13 @@ pub fn render_styles(book: &XlsxBook, l: &Layout) -> Vec<Ev> {
         if !(*id == 0 && roll(&mut srng, l.pct_xf_omit_general)) {
             base.push(("numFmtId".into(), id.to_string()));
         }
-        base.push(("xfId".into(), "0".into()));
+        let flagged = roll(&mut afrng, l.pct_xf_apply_flag);
+        if flagged {
+            base.push(("xfId".into(), afrng.below(style_xfs.len() as u64).to_string()));
+            base.push(("applyNumberFormat".into(), (*afrng.pick(&["0", "false", "0", "1", "true"])).into()));
+        } else {
+            base.push(("xfId".into(), "0".into()));
+        }
         let attrs = arrange(l, &mut arng, base, &XF_EXTRAS);
         out.push(Ev::Start(l.q("xf"), attrs));
         xf_children(&mut out, &mut srng);
